@@ -6,6 +6,7 @@ import sys
 
 if __name__ == "__main__":          # batch mode (see _batch): started as a script
     sys.path.insert(0, os.path.dirname(os.path.dirname(os.path.abspath(__file__))))
+    sys.path.insert(0, os.environ.get("VERIF_REPO", "/repo"))               # the tree under test
 from drivers.http_parse import Source, FakeSock, TlsSock, make_cfg       # (puts the tree under test on sys.path)
 
 from gunicorn.http.parser import RequestParser
@@ -130,7 +131,8 @@ def _batch():
         fol = j["follower"].encode("latin-1") if j.get("follower") else None
         out.append(run_program(j["stream"].encode("latin-1"), j["cuts"], [tuple(x) for x in j["prog"]], j["body"].encode("latin-1"),
                                source=j["source"], cfgkw=j.get("cfgkw"), follower=fol))
-    json.dump({"optimized": not __debug__, "results": out}, sys.stdout)
+    import gunicorn
+    json.dump({"optimized": not __debug__, "tree": os.path.dirname(os.path.dirname(os.path.abspath(gunicorn.__file__))), "results": out}, sys.stdout)
 
 
 if __name__ == "__main__":
